@@ -15,9 +15,9 @@ inserted knot; the result is accepted by the constructors; the domain is unchang
 Proved in Lean (Properties/C04.lean; evaluator-level corollaries in Properties/Bridge.lean `Bridge_C04_*`):
 open directions completely (single values, sequences, objects of any pardim fibre-wise, curves,
 `refine`, `geometric_refine` without reverse); periodic directions under the guard n >= p+k and for
-values whose wrapped image is not the domain end: valid repaired knot vector AND unchanged periodic
-spline (`C04_periodic_partial`, `C04_periodic_boehm`, sequences and objects).  The complement of the
-guard is exactly where the oracle finds the two known defects of the pinned code.
+any real value (the domain end included): valid repaired knot vector AND unchanged periodic spline
+(`C04_periodic_partial`, `C04_periodic_boehm`, sequences and objects).  For n < p+k `insert_knot` refines
+the R-fold cover of the basis; that branch is validated by the correspondence run and the oracle.
 """
 from fractions import Fraction as F
 from math import atan, tan
@@ -53,8 +53,9 @@ REQUIRED_TAGS = ['kind=basis', 'kind=history', 'kind=refine', 'kind=geometric', 
 
 TOLF = 1e-10
 ASSUMPTIONS = [
-    'periodic theorems carry the guard n >= p+k and exclude x = end (C04_periodic*_partial); in that region the pinned code is '
-    'defective (known findings periodic-small-basis-geometry, periodic-insert-end-indexerror) and only the correspondence + oracle apply',
+    'periodic theorems carry the guard n >= p+k (C04_periodic*_partial; x = end is included since the end clamp); for n < p+k '
+    'insert_knot refines the R-fold cover of the basis (Basis.insertKnot, cover branch): covered by the correspondence run and '
+    'the oracle (every (p,k), minimum sizes), not by a theorem yet',
     'center_refine / edge_refine: the tan/atan placement values are computed by the harness with the library formula and passed to '
     'the model (no theorem that they lie inside the domain; the oracle checks every case); geometric_refine(reverse=True) composes '
     'C04_graded with Obj.reverse (C06)',
@@ -149,10 +150,10 @@ def _walk(s):
                 flags.add('periodic-seam')
             if x == t.end:
                 flags.add('periodic-end')
-                if label is None and t.seam_mult() >= 2:
-                    label = 'periodic-insert-end-indexerror'
-            if label is None and t.n < t.p + t.k:
-                label = 'periodic-small-basis-geometry'
+                if t.seam_mult() >= 2:
+                    flags.add('periodic-end-seam-mult>=2')    # IndexError before the end clamp (fixed)
+            if t.n < t.p + t.k:
+                flags.add('periodic-cover-branch')            # refined through the R-fold cover
         else:
             flags.add('open-dir')
         t.insert(x)
@@ -647,6 +648,11 @@ def oracle(sp, s):
     if k == 'basis':
         b = s['basis']
         t = Track(b)
+        if t.n <= 0:
+            # a basis without functions (corpus t1b_insert_zero_functions: periodic = p-1, num_functions = 0,
+            # insert_knot raises ZeroDivisionError): no spline object exists over it, so the property says
+            # nothing about it.  Outside the quantifier; the case stays in the correspondence run.
+            return []
         if (t.k < 0 and not t.clamped) or not t.in_domain(s['x']) or t.mult(s['x']) + 1 > t.p:
             return []
         # the matrix acts on an arbitrary curve over this basis
@@ -768,27 +774,9 @@ def _small_periodic(o, dirs):
 
 
 def classify(s, res=None):
-    k = s['kind']
-    if k == 'basis':
-        t = Track(s['basis'])
-        if t.k >= 0:
-            if s['x'] == t.end and t.seam_mult() >= 2:
-                return 'periodic-insert-end-indexerror'
-            if t.n < t.p + t.k:
-                return 'periodic-small-basis-geometry'
-        return None
-    if k == 'history':
-        return _walk(s)[1]
-    pd = len(s['obj']['bases'])
-    if k == 'refine':
-        if len(s['ns']) == 1 and s['direction'] is not None:
-            dirs = [s['direction']]
-        else:
-            dirs = [d for d in range(pd) if _refine_count(s, d, pd)]
-    else:
-        dirs = [s['dir']]
-    if _small_periodic(s['obj'], dirs):
-        return 'periodic-small-basis-geometry'
+    """No known-finding classes are left for C04: `periodic-insert-end-indexerror` (fixed by the end clamp
+    `mu = min(mu, len(knots) - p)`) and `periodic-small-basis-geometry` (fixed by the cover branch of
+    `insert_knot` for n < p+k) cannot occur any more."""
     return None
 
 
